@@ -19,7 +19,7 @@ FUNCS = ["sum", "nansum", "prod", "nanprod", "mean", "nanmean", "var", "nanvar",
 
 def offending_rows():
     text = ("From Coq Require Import List String.\nFrom Flox Require Import Tables Dtype.\nImport ListNotations.\n"
-            "Eval vm_compute in (length (filter (fun r => negb (dtype_row_ok r)) final_dtype_rows)).\n"
+            "Eval vm_compute in (List.length (filter (fun r => negb (dtype_row_ok r)) final_dtype_rows)).\n"
             "Eval vm_compute in (firstn 8 (filter (fun r => negb (dtype_row_ok r)) final_dtype_rows)).\n")
     ok, out = C.coq_eval(text, "offending", "C11", timeout=200)
     return out[-1500:] if ok else None
